@@ -47,6 +47,7 @@ def run(ctx):
         ctx.guard(conflicts, ctx, cfg, fs)
         import c08, c18, c05
         ctx.guard(consumers.forkers, ctx, cfg, fs, 'F.fork')
+        ctx.guard(c08.keep_only, ctx, lambda: c08.matched(ctx, cfg, fs), lambda o: 'State.path:only-pushed' in o.key, 'T.adopt-one')
         ctx.guard(c08.keep_only, ctx, lambda: c05.scope_restore(ctx, cfg, fs), lambda o: 'adjacent-ok-scope' in o.key, 'R.scope-restore')
         ctx.guard(c08.keep_only, ctx, lambda: c18.flag(ctx, cfg, fs), lambda o: 'take_flag-unconditional' in o.key or 'env-only-when-absent' in o.key, 'E.env-flag')
     wfs = load_witness('shapes')
